@@ -218,8 +218,11 @@ func (p *Processor) ChargingDataCreate(
 		}
 	}
 
-	// the create is accepted: from now on the subscriber's consumer is notified at the address it gave
-	ue.NotifyUri = chargingData.NotifyUri
+	// the create is accepted: from now on the subscriber's consumer is notified at the address it gave; a create
+	// that gives none (an event, a further session) leaves the address registered before in place
+	if chargingData.NotifyUri != "" {
+		ue.NotifyUri = chargingData.NotifyUri
+	}
 	if !chargingData.OneTimeEvent {
 		// only a session can be addressed later on: an event opens none, its (empty) reference designates nothing
 		ue.Cdr[chargingSessionId] = cdr
@@ -432,7 +435,9 @@ func (p *Processor) BuildOnlineChargingDataCreateResopone(
 	ue *chf_context.ChfUe, chargingData models.ChfConvergedChargingChargingDataRequest,
 ) models.ChfConvergedChargingChargingDataResponse {
 	logger.ChargingdataPostLog.Info("In Build Online Charging Data Create Resopone")
-	ue.NotifyUri = chargingData.NotifyUri
+	if chargingData.NotifyUri != "" {
+		ue.NotifyUri = chargingData.NotifyUri
+	}
 
 	multipleUnitInformation, _ := sessionChargingReservation(chargingData)
 
